@@ -37,8 +37,9 @@ const (
 	oNoTerminator                      // counted only: 28.001 accepted without NUL in the last octet
 	oEmbeddedNUL                       // counted only: 28.001 value contains NUL
 	oAliasPayload                      // C06: the decoded value changes when the payload buffer is overwritten afterwards
+	oReceiverDep                       // C06: decoding into a receiver that holds another value yields a different value
 
-	c06Bits = oPanicPack | oPanicReUnpack | oReRejected | oDrift | oNotIdentical | oAliasPayload
+	c06Bits = oPanicPack | oPanicReUnpack | oReRejected | oDrift | oNotIdentical | oAliasPayload | oReceiverDep
 	c08Bits = oPanicUnpack | oWrongLen | oOutOfRange | oPanicString | oPanicUnit
 )
 
@@ -73,6 +74,9 @@ type codec struct {
 	refKind  bool   // the Go type holds strings, slices, pointers or maps: a decoded value could share memory with the payload
 	scratch  []byte // a private copy of the payload for the overwrite-after-decode probe
 	p3       []byte
+	d3       dpt.Datapoint // a receiver that is primed with another value before every probe
+	primer   []byte        // an accepted payload with as many non-zero fields as could be found
+	p4       []byte
 	// details of the last eval
 	p2       []byte
 	err      error
@@ -95,6 +99,27 @@ func newCodec(name string) *codec {
 	}
 	c.equal = equalFunc(d, d2)
 	c.refKind = holdsRefs(c.rv.Type())
+	if d3, ok := dpt.Produce(name); ok && d3 != nil {
+		n := len(d.Pack())
+		for _, v := range []byte{0xFF, 0xEF, 0x7F, 0x3B, 0x2B, 0x17, 0x11, 0x01} {
+			q := make([]byte, n)
+			for i := 1; i < n; i++ {
+				q[i] = v
+			}
+			if n == 1 {
+				q[0] = v & 0x3F
+			}
+			ok := false
+			func() {
+				defer func() { recover() }()
+				ok = d3.Unpack(q) == nil
+			}()
+			if ok {
+				c.d3, c.primer = d3, q
+				break
+			}
+		}
+	}
 	return c
 }
 
@@ -247,6 +272,23 @@ func (c *codec) eval(p []byte, fl flags) (o outcome) {
 		if !c.equal() {
 			o |= oDrift
 		}
+		if c.d3 != nil && o&oDrift == 0 {
+			// a receiver that held another value before (an application decodes every telegram of a
+			// group address into the same variable): the result must be that of a fresh receiver
+			stage = stUnpack
+			if err := c.d3.Unpack(c.primer); err == nil {
+				if err := c.d3.Unpack(p); err != nil {
+					o |= oReceiverDep
+					c.p4 = nil
+				} else {
+					stage = stPack
+					c.p4 = c.d3.Pack()
+					if !bytes.Equal(c.p4, p2) {
+						o |= oReceiverDep
+					}
+				}
+			}
+		}
 		if c.refKind && o&oDrift == 0 {
 			// a receiver re-uses its buffer for the next telegram: decode from a private copy of the
 			// payload, overwrite the copy, encode - the value must be what it was
@@ -286,6 +328,7 @@ func (c *codec) classes(o outcome) []string {
 	add(oReRejected, "C06:reencoded-rejected:%s")
 	add(oNotIdentical, "C06:not-byte-identical:%s")
 	add(oAliasPayload, "C06:decoded-value-aliases-payload:%s")
+	add(oReceiverDep, "C06:decode-depends-on-receiver:%s")
 	add(oPanicPack, "C06:panic:Pack:%s")
 	add(oPanicReUnpack, "C06:panic:Unpack-of-reencoded:%s")
 	add(oPanicUnpack, "C08:panic:%s")
@@ -361,6 +404,9 @@ func (c *codec) describe(p []byte, o outcome) string {
 			}
 			if o&oNotIdentical != 0 {
 				fmt.Fprintf(&b, "; class %s must re-encode to % x", c.spec.class, c.spec.canon(p, nil))
+			}
+			if o&oReceiverDep != 0 {
+				fmt.Fprintf(&b, "; decoded into a receiver that held the value of payload % x before, the same payload yields a value that encodes to % x (nil: rejected): the result depends on what the receiver held", c.primer, c.p4)
 			}
 			if o&oAliasPayload != 0 {
 				fmt.Fprintf(&b, "; decoded from a buffer that is overwritten afterwards (as a receiver re-using its buffer does) the same value encodes to % x: it shares memory with the payload", c.p3)
